@@ -35,6 +35,14 @@ Fixpoint last_val {V} (k : string) (l : list (string * V)) (acc : option V) : op
 Definition as_dict {V} (l : list (string * V)) : list (string * V) :=
   flat_map (fun k => match last_val k l None with Some v => [(k, v)] | None => [] end) (dedup (map fst l)).
 
+(* BaseDevice.get / find over the (label, value) items: dict(items) then a scan in key order *)
+Definition get_in {V} (items : list (string * V)) (name : string) : option V :=
+  match filter (fun kv => ends_with (fst kv) name) (as_dict items) with [] => None | kv :: _ => Some (snd kv) end.
+Definition find_suffix_in {V} (items : list (string * V)) (suf : string) : list V :=
+  map snd (filter (fun kv => ends_with (fst kv) suf) (as_dict items)).
+Definition find_prefix_in {V} (items : list (string * V)) (pre : string) : list V :=
+  map snd (filter (fun kv => starts_with (fst kv) pre) (as_dict items)).
+
 Section Tree.
   Context {A : Type} `{Num A}.
   Local Open Scope num_scope.
@@ -206,12 +214,9 @@ Section Tree.
   Definition map_devices (d : gdev) (S : list (list A)) : list (string * L * list A) := combine (leaves d) S.
   Definition map_rows_flat (d : gdev) (s : list A) := map_rows d (reshape (rows d) (dlen d) s).
   (* get(name): first (in dict order) leaf whose label ends with name; find: literal prefix / '.*suffix$' *)
-  Definition get (d : gdev) (name : string) : option L :=
-    match filter (fun kv => ends_with (fst kv) name) (as_dict (leaves d)) with [] => None | kv :: _ => Some (snd kv) end.
-  Definition find_suffix (d : gdev) (suf : string) : list L :=
-    map snd (filter (fun kv => ends_with (fst kv) suf) (as_dict (leaves d))).
-  Definition find_prefix (d : gdev) (pre : string) : list L :=
-    map snd (filter (fun kv => starts_with (fst kv) pre) (as_dict (leaves d))).
+  Definition get (d : gdev) (name : string) : option L := get_in (leaves d) name.
+  Definition find_suffix (d : gdev) (suf : string) : list L := find_suffix_in (leaves d) suf.
+  Definition find_prefix (d : gdev) (pre : string) : list L := find_prefix_in (leaves d) pre.
 
   (* ---- constraints over the flattened flow ----------------------------------------------------------- *)
   (* s.reshape(shape)[o:o+r, :], handed to the child (which flattens / reshapes it itself) *)
